@@ -1,7 +1,8 @@
 (* C06 - the Shapley value is the average marginal contribution over all orderings.
    Model: theories/Shapley.v (sh_player / sh_all = the two entry points of shapley.py, loop for loop;
-   sh_perms / sh_marg / sh_perm_avg = the textbook definition).  Proofs: theories/ShapleyProofs.v. *)
-From ICG Require Import Prelude Bits Shapley ShapleyProofs ShapleyPermProofs.
+   sh_perms / sh_marg / sh_perm_avg = the textbook definition).  Proofs: theories/ShapleyProofs.v,
+   ShapleyPermProofs.v (counting, relabelling, all n), ShapleyCarrierProofs.v (null player out, carrier games, all n). *)
+From ICG Require Import Prelude Bits Shapley ShapleyProofs ShapleyPermProofs ShapleyCarrierProofs.
 From Coq Require Import Permutation.
 Local Open Scope Q_scope.
 
@@ -105,6 +106,55 @@ Theorem relabel_value js g s : sh_relabel js g (sh_actm js s) = g s.
 Proof. exact (sh_relabel_actm js g s). Qed.
 Print Assumptions relabel_value.
 
+(* ---------- null player out / carrier, ALL n (theories/ShapleyCarrierProofs.v) ---------- *)
+(* deleting a null LAST player: if player n of the (n+1)-player game g is null (g (T + n) == g T for every T within
+   0..n-1), every other player keeps its value in the n-player game (the same function on the ids below 2^n) *)
+Theorem C06_null_player_out n i g : (i < n)%nat ->
+  (forall T, bounded n T -> g (N.lor T (single n)) == g T) ->
+  sh_player (S n) i g == sh_player n i g.
+Proof. exact (sh_null_last_out n i g). Qed.
+Print Assumptions C06_null_player_out.
+
+(* carrier = the first k players: if the players k..n-1 are all null, the players below k get what they get in the
+   k-player game (same function, ids below 2^k) and the players k..n-1 get 0 *)
+Theorem C06_carrier n k g : (k <= n)%nat ->
+  (forall j, (k <= j < n)%nat -> forall T, bounded n T -> g (N.lor T (single j)) == g T) ->
+  (forall i, (i < k)%nat -> sh_player n i g == sh_player k i g) /\
+  (forall i, (k <= i < n)%nat -> sh_player n i g == 0).
+Proof. exact (sh_carrier_prefix n k g). Qed.
+Print Assumptions C06_carrier.
+
+(* ... so the value of a carrier player is the average marginal contribution over the k! orderings of the carrier *)
+Theorem C06_carrier_perm_avg n k g : (k <= n)%nat ->
+  (forall j, (k <= j < n)%nat -> forall T, bounded n T -> g (N.lor T (single j)) == g T) ->
+  forall i, (i < k)%nat -> sh_player n i g == sh_perm_avg k i g.
+Proof. exact (sh_carrier_perm_avg n k g). Qed.
+Print Assumptions C06_carrier_perm_avg.
+
+(* the whole value vector: the k-player one followed by n-k zeros (entrywise ==) *)
+Theorem C06_carrier_all n k g : (k <= n)%nat ->
+  (forall j, (k <= j < n)%nat -> forall T, bounded n T -> g (N.lor T (single j)) == g T) ->
+  Forall2 Qeq (sh_all n g) (sh_all k g ++ repeat 0 (n - k)).
+Proof. exact (sh_carrier_all n k g). Qed.
+Print Assumptions C06_carrier_all.
+
+(* ARBITRARY carrier C = { pi 0, ..., pi (k-1) } (pi any permutation of the players; the players pi k .. pi (n-1) are
+   null): carrier player pi i gets the average, over the k! orderings of the k carrier positions, of its marginal
+   contribution in the carrier sub-game  S |-> v (pi S)  (sh_push n pi S = { pi j | j in S }), the others get 0.
+   This is the oracle harness/props/c06.py applies to its carrier games at n = 9..20 (pi j = C[j] for j < k). *)
+Theorem C06_carrier_general n pi k v : Permutation (seq 0 n) (map pi (seq 0 n)) -> (k <= n)%nat ->
+  (forall j, (k <= j < n)%nat -> forall T, bounded n T -> v (N.lor T (single (pi j))) == v T) ->
+  (forall i, (i < k)%nat -> sh_player n (pi i) v == sh_perm_avg k i (fun S => v (sh_push n pi S))) /\
+  (forall i, (k <= i < n)%nat -> sh_player n (pi i) v == 0).
+Proof. intros H. exact (sh_carrier_general n pi H k v). Qed.
+Print Assumptions C06_carrier_general.
+
+(* meaning of sh_push: membership in pi(S) *)
+Theorem push_membership n pi S x : Permutation (seq 0 n) (map pi (seq 0 n)) ->
+  tb (sh_push n pi S) x = true <-> exists j, (j < n)%nat /\ tb S j = true /\ pi j = x.
+Proof. intros _. exact (sh_tb_push n pi S x). Qed.
+Print Assumptions push_membership.
+
 (* ---------- concrete, non-trivial instances ---------- *)
 (* an asymmetric 3-player game: ids 0..7 = {},{0},{1},{0,1},{2},{0,2},{1,2},{0,1,2} *)
 Definition c06_g3 : N -> Q := sh_game_of_list [0; 1; 2; 4; 3; 5; 7; 12].
@@ -152,3 +202,57 @@ Qed.
 
 Example c06_perms_3 : sh_perms 3 = [[0; 1; 2]; [1; 0; 2]; [1; 2; 0]; [0; 2; 1]; [2; 0; 1]; [2; 1; 0]]%nat.
 Proof. vm_compute. reflexivity. Qed.
+
+(* ---------- carrier games ---------- *)
+(* a 5-player game carried by the players 0,1,2: the value of a coalition is the value, in the asymmetric 3-player game
+   c06_g3, of its low three bits; players 3 and 4 are null *)
+Definition c06_g5 : N -> Q := fun T => c06_g3 (N.land T 7).
+Example c06_carrier_hypothesis :
+  forall j, (3 <= j < 5)%nat -> forall T, bounded 5 T -> c06_g5 (N.lor T (single j)) == c06_g5 T.
+Proof.
+  intros j Hj T _. unfold c06_g5.
+  replace (N.land (N.lor T (single j)) 7) with (N.land T 7); [reflexivity|].
+  apply bits_inj_nat. intro i. change 7%N with (grand 3). rewrite !tb_land, tb_lor, tb_single, tb_grand.
+  destruct (Nat.ltb_spec i 3) as [Hi|Hi]; [|rewrite !andb_false_r; reflexivity].
+  replace (Nat.eqb j i) with false by (symmetry; apply Nat.eqb_neq; lia). rewrite orb_false_r. reflexivity.
+Qed.
+Example c06_null_out_instance :
+  (1 < 4)%nat /\ (forall T, bounded 4 T -> c06_g5 (N.lor T (single 4)) == c06_g5 T) /\
+  Qred (sh_player 5 1 c06_g5) = 25 # 6 /\ Qred (sh_player 4 1 c06_g5) = 25 # 6.
+Proof.
+  split; [lia|]. split; [|split; vm_compute; reflexivity].
+  intros T HT. apply c06_carrier_hypothesis; [lia|]. intros i Hi. apply HT. lia.
+Qed.
+Example c06_carrier_instance :
+  (3 <= 5)%nat /\
+  map Qred (sh_all 5 c06_g5) = [8 # 3; 25 # 6; 31 # 6; 0; 0] /\
+  map Qred (sh_all 3 c06_g5) = [8 # 3; 25 # 6; 31 # 6] /\
+  map (fun i => Qred (sh_perm_avg 3 i c06_g5)) [0; 1; 2]%nat = [8 # 3; 25 # 6; 31 # 6].
+Proof. split; [lia|]. repeat split; vm_compute; reflexivity. Qed.
+Example c06_carrier_all_instance : Forall2 Qeq (sh_all 5 c06_g5) (sh_all 3 c06_g5 ++ repeat 0 (5 - 3)).
+Proof. apply C06_carrier_all; [lia| exact c06_carrier_hypothesis]. Qed.
+
+(* a 5-player game carried by the players 1,3,4 (not a prefix): position 0,1,2 of c06_g3 = player 1,3,4;
+   players 0 and 2 are null *)
+Definition c06_pi5 (i : nat) : nat := match i with 0 => 1 | 1 => 3 | 2 => 4 | 3 => 0 | _ => 2 end%nat.
+Definition c06_v5 : N -> Q := fun T => c06_g3 (N.land (sh_pull 5 c06_pi5 T) 7).
+Example c06_carrier_general_hypotheses :
+  Permutation (seq 0 5) (map c06_pi5 (seq 0 5)) /\ (3 <= 5)%nat /\
+  (forall j, (3 <= j < 5)%nat -> forall T, bounded 5 T -> c06_v5 (N.lor T (single (c06_pi5 j))) == c06_v5 T).
+Proof.
+  split; [|split; [lia|]].
+  - change (Permutation [0; 1; 2; 3; 4]%nat [1; 3; 4; 0; 2]%nat).
+    apply (Permutation_cons_app [1; 3; 4]%nat [2]%nat).
+    apply (Permutation_cons_app []%nat [3; 4; 2]%nat).
+    apply (Permutation_cons_app [3; 4]%nat []%nat). apply Permutation_refl.
+  - intros j Hj T HT. apply in_alln in HT.
+    assert (Ej : j = 3%nat \/ j = 4%nat) by lia.
+    vm_compute in HT.
+    destruct Ej as [-> | ->];
+      repeat (destruct HT as [<-|HT]; [vm_compute; reflexivity|]); destruct HT.
+Qed.
+Example c06_carrier_general_instance :
+  map Qred (sh_all 5 c06_v5) = [0; 8 # 3; 0; 25 # 6; 31 # 6] /\
+  map (fun i => Qred (sh_perm_avg 3 i (fun S => c06_v5 (sh_push 5 c06_pi5 S)))) [0; 1; 2]%nat = [8 # 3; 25 # 6; 31 # 6] /\
+  map c06_pi5 [0; 1; 2; 3; 4]%nat = [1; 3; 4; 0; 2]%nat.
+Proof. repeat split; vm_compute; reflexivity. Qed.
